@@ -273,7 +273,43 @@ pub fn read_val(s: &str) -> Option<Val> {
 // ---------------------------------------------------------------------------------------------------
 // tape
 
-#[derive(Default, Clone, Debug)]
+macro_rules! freedoms {
+    ($($id:ident => $name:expr),* $(,)?) => {
+        /// one layout freedom of the syntax that the printer can exercise (evidence histogram of `c03.render`)
+        #[allow(non_camel_case_types)]
+        #[derive(Clone, Copy, Debug, PartialEq)]
+        #[repr(usize)]
+        pub enum F { $($id),* }
+        /// histogram key of every freedom, indexed by `F as usize`
+        pub const FREEDOM_KEYS: &[&str] = &[$($name),*];
+    };
+}
+
+freedoms! {
+    WsSp => "freedom.ws=SP", WsLf => "freedom.ws=LF", WsCr => "freedom.ws=CR", WsHt => "freedom.ws=HT", WsFf => "freedom.ws=FF", WsNul => "freedom.ws=NUL",
+    CommentLf => "freedom.comment.eol=LF", CommentCr => "freedom.comment.eol=CR", CommentCrLf => "freedom.comment.eol=CRLF",
+    GapEmpty => "freedom.gap.empty", GapForced => "freedom.gap.forced",
+    IntPlus => "freedom.int.sign=plus", IntMinusZero => "freedom.int.sign=minus-zero", IntNoSign => "freedom.int.sign=none", IntMinus => "freedom.int.sign=minus",
+    IntLeadingZeros => "freedom.int.leading-zeros", RefLeadingZeros => "freedom.ref.leading-zeros",
+    RealD => "freedom.real.form=d.", RealDotD => "freedom.real.form=.d", RealDD => "freedom.real.form=d.d",
+    RealPlus => "freedom.real.plus", RealTrailingZeros => "freedom.real.trailing-zeros", RealLeadingZeros => "freedom.real.leading-zeros",
+    NameHashMandatory => "freedom.name.hash=mandatory", NameHashOptional => "freedom.name.hash=optional", NameRaw => "freedom.name.raw",
+    NameHexUpper => "freedom.name.hexcase=upper", NameHexLower => "freedom.name.hexcase=lower",
+    StrLiteral => "freedom.string.form=literal", StrHex => "freedom.string.form=hex",
+    Octal1 => "freedom.lit.octal.digits=1", Octal2 => "freedom.lit.octal.digits=2", Octal3 => "freedom.lit.octal.digits=3",
+    OctalForced3 => "freedom.lit.octal.forced3", OctalOverflow => "freedom.lit.octal.overflow",
+    LitNamedEscape => "freedom.lit.named-escape", LitIgnoredBackslash => "freedom.lit.ignored-backslash",
+    ParenRaw => "freedom.lit.paren=raw-balanced", ParenEscaped => "freedom.lit.paren=escaped", ParenOctal => "freedom.lit.paren=octal",
+    ContLf => "freedom.lit.continuation=LF", ContCr => "freedom.lit.continuation=CR", ContCrLf => "freedom.lit.continuation=CRLF",
+    EolAsLf => "freedom.lit.eol-written-as=LF", EolAsCr => "freedom.lit.eol-written-as=CR", EolAsCrLf => "freedom.lit.eol-written-as=CRLF", EolAsEscape => "freedom.lit.eol-written-as=escape",
+    LitRaw => "freedom.lit.raw",
+    HexWs => "freedom.hex.ws", HexWsNul => "freedom.hex.ws=NUL", HexWsFf => "freedom.hex.ws=FF", HexWsOther => "freedom.hex.ws=other",
+    HexOdd => "freedom.hex.odd", HexDigitUpper => "freedom.hex.digit=upper", HexDigitLower => "freedom.hex.digit=lower",
+    StreamEolLf => "freedom.stream.eol=LF", StreamEolCrLf => "freedom.stream.eol=CRLF", StreamCommentBeforeKeyword => "freedom.stream.comment-before-keyword",
+    Adjacent => "freedom.adjacent",
+}
+
+#[derive(Clone, Debug)]
 pub struct RenderStats {
     pub gaps: u64,
     pub gaps_empty: u64,
@@ -283,6 +319,15 @@ pub struct RenderStats {
     pub str_lit: u64,
     /// (string bytes, written in hexadecimal form?) in the order the strings were spelled
     pub forms: Vec<(Vec<u8>, bool)>,
+    /// how often every layout freedom was exercised (index: `F as usize`, key: `FREEDOM_KEYS`); counting only,
+    /// the bytes rendered and the numbers drawn from the tape do not depend on it
+    pub freedom: Vec<u64>,
+}
+
+impl Default for RenderStats {
+    fn default() -> RenderStats {
+        RenderStats { gaps: 0, gaps_empty: 0, gaps_forced: 0, gaps_comment: 0, str_hex: 0, str_lit: 0, forms: vec![], freedom: vec![0; FREEDOM_KEYS.len()] }
+    }
 }
 
 /// `Tape := List Nat`, consumed front to back; `draw n`: exhausted ⇒ 0, else `x % n`.
@@ -315,6 +360,11 @@ impl Tape {
         let x = self.xs[self.i];
         self.i += 1;
         x % n
+    }
+    /// counts one exercised layout freedom
+    #[inline]
+    pub fn f(&mut self, k: F) {
+        self.stats.freedom[k as usize] += 1;
     }
     /// the numbers drawn so far
     pub fn consumed(&self) -> &[u64] {
@@ -385,6 +435,7 @@ pub fn comment_body(k: u64, t: &mut Tape) -> Vec<u8> {
 pub fn gap_piece(t: &mut Tape) -> (Vec<u8>, bool) {
     let c = t.draw(8);
     if c < 6 {
+        t.f([F::WsSp, F::WsLf, F::WsCr, F::WsHt, F::WsFf, F::WsNul][c as usize]);
         (vec![ws_byte(c)], false)
     } else {
         let k = t.draw(4);
@@ -393,15 +444,21 @@ pub fn gap_piece(t: &mut Tape) -> (Vec<u8>, bool) {
         let mut out = vec![37];
         out.extend(body);
         match e {
-            0 => out.push(10),
-            1 => out.push(13),
-            _ => out.extend([13, 10]),
+            0 => { t.f(F::CommentLf); out.push(10) }
+            1 => { t.f(F::CommentCr); out.push(13) }
+            _ => { t.f(F::CommentCrLf); out.extend([13, 10]) }
         }
         (out, true)
     }
 }
 
 pub fn gap(must: bool, t: &mut Tape) -> Vec<u8> {
+    gap_ex(must, true, t).0
+}
+
+/// `gap` for the statistics: `between_tokens` = a token stands on either side (an empty gap then makes two
+/// tokens adjacent); second component: does the gap contain a comment?
+pub fn gap_ex(must: bool, between_tokens: bool, t: &mut Tape) -> (Vec<u8>, bool) {
     let k = t.draw(4);
     let mut g = vec![];
     let mut comment = false;
@@ -417,11 +474,24 @@ pub fn gap(must: bool, t: &mut Tape) -> Vec<u8> {
     if g.is_empty() {
         if must {
             t.stats.gaps_forced += 1;
-            return vec![32];
+            t.f(F::GapForced);
+            return (vec![32], false);
         }
         t.stats.gaps_empty += 1;
+        t.f(F::GapEmpty);
+        if between_tokens {
+            t.f(F::Adjacent);
+        }
     }
-    g
+    (g, comment)
+}
+
+/// does a token start `s` (neither white-space nor a comment nor the end of the input)?
+pub fn starts_token(s: &[u8]) -> bool {
+    match s.first() {
+        None => false,
+        Some(&b) => !is_whitespace(b) && b != 37,
+    }
 }
 
 pub fn starts_regular(s: &[u8]) -> bool {
@@ -445,24 +515,37 @@ pub fn fmt_nat(n: u64) -> Vec<u8> {
 }
 
 pub fn nat_tok(n: u64, t: &mut Tape) -> Vec<u8> {
+    nat_tok_z(n, t).0
+}
+
+/// `nat_tok` and the number of leading zeros written
+fn nat_tok_z(n: u64, t: &mut Tape) -> (Vec<u8>, u64) {
     let z = t.draw(3);
     let mut out = zeros(z);
     out.extend(fmt_nat(n));
-    out
+    (out, z)
 }
 
 pub fn int_tok(i: i64, t: &mut Tape) -> Vec<u8> {
     let s = t.draw(3);
     let mut out: Vec<u8> = if i < 0 {
+        t.f(F::IntMinus);
         vec![45]
     } else if s == 1 {
+        t.f(F::IntPlus);
         vec![43]
     } else if s == 2 && i == 0 {
+        t.f(F::IntMinusZero);
         vec![45]
     } else {
+        t.f(F::IntNoSign);
         vec![]
     };
-    out.extend(nat_tok(i.unsigned_abs(), t));
+    let (d, z) = nat_tok_z(i.unsigned_abs(), t);
+    if z > 0 {
+        t.f(F::IntLeadingZeros);
+    }
+    out.extend(d);
     out
 }
 
@@ -482,6 +565,7 @@ pub fn real_tok(base: &[u8], t: &mut Tape) -> Vec<u8> {
     let mut out: Vec<u8> = if neg {
         vec![45]
     } else if s == 1 {
+        t.f(F::RealPlus);
         vec![43]
     } else {
         vec![]
@@ -491,9 +575,17 @@ pub fn real_tok(base: &[u8], t: &mut Tape) -> Vec<u8> {
     let drop_zero = t.draw(2);
     let mut fp2 = fp.to_vec();
     fp2.extend(zeros(tz));
+    if tz > 0 {
+        t.f(F::RealTrailingZeros);
+    }
     if drop_zero == 1 && ip.iter().all(|&c| c == 48) && !fp2.is_empty() {
         // integer part dropped
+        t.f(F::RealDotD);
     } else {
+        if z > 0 {
+            t.f(F::RealLeadingZeros);
+        }
+        t.f(if fp2.is_empty() { F::RealD } else { F::RealDD });
         out.extend(zeros(z));
         out.extend_from_slice(ip);
     }
@@ -534,9 +626,14 @@ pub fn name_body(s: &[u8], t: &mut Tape) -> Vec<u8> {
     for &b in s.iter().rev() {
         let c = t.draw(4);
         if name_verbatim(b) && c != 3 {
+            t.f(F::NameRaw);
             pieces.push(vec![b]);
         } else {
+            t.f(if name_verbatim(b) { F::NameHashOptional } else { F::NameHashMandatory });
             let h = hex2_case(b, t);
+            for d in h {
+                if d.is_ascii_uppercase() { t.f(F::NameHexUpper); } else if d.is_ascii_lowercase() { t.f(F::NameHexLower); }
+            }
             pieces.push(vec![35, h[0], h[1]]);
         }
     }
@@ -563,10 +660,21 @@ pub fn hex_ws(t: &mut Tape) -> Vec<u8> {
     }
 }
 
+/// statistics of white-space that is written inside a hexadecimal string
+fn note_hex_ws(w: &[u8], t: &mut Tape) {
+    if !w.is_empty() {
+        t.f(F::HexWs);
+    }
+    for &b in w {
+        t.f(match b { 0 => F::HexWsNul, 12 => F::HexWsFf, _ => F::HexWsOther });
+    }
+}
+
 /// the digits of a hexadecimal string up to and including `>`
 pub fn hex_body(s: &[u8], t: &mut Tape) -> Vec<u8> {
     let mut pieces = vec![];
     let mut last = hex_ws(t);
+    note_hex_ws(&last, t);
     last.push(62);
     pieces.push(last);
     let n = s.len();
@@ -576,11 +684,18 @@ pub fn hex_body(s: &[u8], t: &mut Tape) -> Vec<u8> {
         let w2 = hex_ws(t);
         let odd = t.draw(2);
         let is_last = idx + 1 == n;
+        note_hex_ws(&w1, t);
         let mut p = w1;
         p.push(h[0]);
+        let case = |d: u8, t: &mut Tape| if d.is_ascii_uppercase() { t.f(F::HexDigitUpper); } else if d.is_ascii_lowercase() { t.f(F::HexDigitLower); };
+        case(h[0], t);
         if !(is_last && b & 15 == 0 && odd == 1) {
+            note_hex_ws(&w2, t);
             p.extend(w2);
             p.push(h[1]);
+            case(h[1], t);
+        } else {
+            t.f(F::HexOdd);
         }
         pieces.push(p);
     }
@@ -639,39 +754,65 @@ pub fn str_piece(b: u8, raw_paren: bool, next: Option<u8>, t: &mut Tape) -> Vec<
     let d = t.draw(3);
     let next_is_lf = next == Some(10);
     let v = b as u32;
-    if (b == 40 || b == 41) && raw_paren {
+    let paren = b == 40 || b == 41;
+    if paren && raw_paren {
+        t.f(F::ParenRaw);
         vec![b]
     } else if c == 0 {
-        octal_esc(v, d as u32 + 1, next)
+        let o = octal_esc(v, d as u32 + 1, next);
+        t.f([F::Octal1, F::Octal2, F::Octal3][o.len() - 2]);
+        let need = if v >= 64 { 3 } else if v >= 8 { 2 } else { 1 };
+        if o.len() == 4 && need.max(d as u32 + 1) < 3 {
+            t.f(F::OctalForced3);
+        }
+        if paren { t.f(F::ParenOctal); }
+        if b == 10 { t.f(F::EolAsEscape); }
+        o
     } else if c == 1 {
+        t.f(F::OctalOverflow);
+        if paren { t.f(F::ParenOctal); }
+        if b == 10 { t.f(F::EolAsEscape); }
         vec![92, oct_digit((v + 256) / 64), oct_digit(v / 8), oct_digit(v)]
     } else if b == 10 {
         if c < 5 {
+            t.f(F::LitNamedEscape);
+            t.f(F::EolAsEscape);
             vec![92, 110]
         } else if c < 8 {
+            t.f(F::EolAsLf);
             vec![10]
         } else if c < 10 {
+            t.f(F::EolAsCrLf);
             vec![13, 10]
         } else if next_is_lf {
+            t.f(F::EolAsLf);
             vec![10]
         } else {
+            t.f(F::EolAsCr);
             vec![13]
         }
     } else if b == 13 {
+        t.f(F::LitNamedEscape);
         vec![92, 114]
     } else if b == 92 {
+        t.f(F::LitNamedEscape);
         vec![92, 92]
-    } else if b == 40 || b == 41 {
+    } else if paren {
+        t.f(F::ParenEscaped);
         vec![92, b]
-    } else if b == 9 {
-        if c < 6 { vec![92, 116] } else { vec![9] }
-    } else if b == 8 {
-        if c < 6 { vec![92, 98] } else { vec![8] }
-    } else if b == 12 {
-        if c < 6 { vec![92, 102] } else { vec![12] }
+    } else if b == 9 || b == 8 || b == 12 {
+        if c < 6 {
+            t.f(F::LitNamedEscape);
+            vec![92, match b { 9 => 116, 8 => 98, _ => 102 }]
+        } else {
+            t.f(F::LitRaw);
+            vec![b]
+        }
     } else if c == 2 && plain_after_backslash(b) {
+        t.f(F::LitIgnoredBackslash);
         vec![92, b]
     } else {
+        t.f(F::LitRaw);
         vec![b]
     }
 }
@@ -679,10 +820,13 @@ pub fn str_piece(b: u8, raw_paren: bool, next: Option<u8>, t: &mut Tape) -> Vec<
 pub fn continuation(next: Option<u8>, t: &mut Tape) -> Vec<u8> {
     let c = t.draw(10);
     if c == 0 {
+        t.f(F::ContLf);
         vec![92, 10]
     } else if c == 1 {
+        t.f(F::ContCrLf);
         vec![92, 13, 10]
     } else if c == 2 && next != Some(10) {
+        t.f(F::ContCr);
         vec![92, 13]
     } else {
         vec![]
@@ -738,10 +882,12 @@ pub fn str_tok(s: &[u8], t: &mut Tape) -> Vec<u8> {
     let h = t.draw(3);
     if h == 0 {
         t.stats.str_hex += 1;
+        t.f(F::StrHex);
         t.stats.forms.push((s.to_vec(), true));
         hex_str_tok(s, t)
     } else {
         t.stats.str_lit += 1;
+        t.f(F::StrLiteral);
         t.stats.forms.push((s.to_vec(), false));
         lit_str_tok(s, t)
     }
@@ -764,10 +910,12 @@ pub fn render(v: &Val, t: &mut Tape) -> Vec<u8> {
         Val::Str(s) => str_tok(s, t),
         Val::Name(s) => name_tok(s, t),
         Val::Ref(id, gen) => {
-            let a = nat_tok(*id, t);
+            let (a, z1) = nat_tok_z(*id, t);
             let g1 = gap(true, t);
-            let b = nat_tok(*gen, t);
+            let (b, z2) = nat_tok_z(*gen, t);
             let g2 = gap(true, t);
+            if z1 > 0 { t.f(F::RefLeadingZeros); }
+            if z2 > 0 { t.f(F::RefLeadingZeros); }
             let mut out = a;
             out.extend(g1);
             out.extend(b);
@@ -787,10 +935,13 @@ pub fn render(v: &Val, t: &mut Tape) -> Vec<u8> {
         }
         Val::StreamInFile(..) => b"null".to_vec(),
         Val::StreamPending(info, data) => {
-            let g3 = gap(false, t);
+            // g3 stands between the data and the keyword: no token before it
+            let (g3, _) = gap_ex(false, false, t);
             let e = t.draw(2);
             let eol: &[u8] = if e == 0 { &[10] } else { &[13, 10] };
-            let g2 = gap(false, t);
+            t.f(if e == 0 { F::StreamEolLf } else { F::StreamEolCrLf });
+            let (g2, g2_comment) = gap_ex(false, true, t);
+            if g2_comment { t.f(F::StreamCommentBeforeKeyword); }
             let r = render_entries(info, t);
             let g1 = gap(false, t);
             let mut out = vec![60, 60];
@@ -838,7 +989,7 @@ pub fn render_entries(kvs: &[(Vec<u8>, Val)], t: &mut Tape) -> Vec<u8> {
 
 /// `v`, a gap where one is needed, then `tail`; second component: where the value's own text ends
 pub fn render_with_tail(v: &Val, tail: &[u8], t: &mut Tape) -> (Vec<u8>, usize) {
-    let g = gap(needs_bnd(v) && starts_regular(tail), t);
+    let (g, _) = gap_ex(needs_bnd(v) && starts_regular(tail), starts_token(tail), t);
     let tv = render(v, t);
     let end = tv.len();
     (cat3(tv, g, tail.to_vec()), end)
@@ -855,7 +1006,7 @@ pub struct Indirect {
 
 /// `id gen obj … endobj`, a gap, then `tail`
 pub fn render_indirect(id: u64, gen: u64, v: &Val, tail: &[u8], t: &mut Tape) -> Indirect {
-    let g5 = gap(starts_regular(tail), t);
+    let (g5, _) = gap_ex(starts_regular(tail), starts_token(tail), t);
     let g4 = gap(needs_bnd(v), t);
     let tv = render(v, t);
     let g3 = gap(starts_regular(&tv), t);
@@ -886,7 +1037,7 @@ pub fn render_seq(vs: &[Val], tail: &[u8], t: &mut Tape) -> (Vec<u8>, Vec<(usize
     let mut r = tail.to_vec();
     let mut lens = vec![]; // (text length, gap length), last object first
     for x in vs.iter().rev() {
-        let g = gap(needs_bnd(x) && starts_regular(&r), t);
+        let (g, _) = gap_ex(needs_bnd(x) && starts_regular(&r), starts_token(&r), t);
         let tx = render(x, t);
         lens.push((tx.len(), g.len()));
         r = cat3(tx, g, r);
